@@ -205,6 +205,10 @@ class C12Elitism(Monitor):
             start = self.checked.get(d.id, 0)
             for g in range(start, len(hist)):
                 self.cov("generations_size_checked")
+                if cname == "SobolDeme" and want and (want & (want - 1)):
+                    self.cov("generations_of_a_sobol_deme_whose_size_is_not_a_power_of_two")
+                elif cname == "LHSDeme":
+                    self.cov("generations_of_an_lhs_deme")
                 if want is not None and len(hist[g]) != want:
                     self.v(f"generation size != configured population size: {cname}", deme=d.id, engine=eng, generation=g, size=len(hist[g]), configured=want)
                 if g == 0 or not elitist:
